@@ -33,6 +33,10 @@ static Sc vpowi(Sc b, int n) { return powl(b, (Sc)n); }
 static Sc vpow(Sc b, Sc e) { return powl(b, e); }
 #define VF_EPS() ((Sc)LDBL_EPSILON)
 #define VF_NAN() (ghost_nan = 1, (Sc)NAN)
+#define VF_TOINT(x) ((int)(x))
+static int vf_oob;
+static int VF_IDX_(int i, int n) { if (i < 0 || i >= n) { vf_oob = 1; return 0; } return i; }   /* out-of-container index: flagged, element 0 read instead */
+#define VF_IDX(i, n) VF_IDX_((i), (n))
 static Sc pi, PI;
 #define VF_PI_OK (pi == PI)
 #define REQ(e)
